@@ -130,6 +130,18 @@ func (g *Gen) step(fn *ssa.Function, st *State, in ssa.Instruction) {
 				}
 				st.heap[k] = g.def("H", "(Array Int Int)", fmt.Sprintf("(store %s %s %s)", g.heapGet(st, k), p.T, part[1]))
 			}
+		case p.Kind == "heapfield" && v.Kind == "str":
+			// a string stored into an object: a new immutable backing object holding its bytes
+			g.frameFieldStore(st, p.Idx, nil, x.Pos())
+			r := g.freshRef(st)
+			g.setHs(st, r, v.T)
+			for _, part := range [][2]string{{"", r}, {"#off", v.Off}, {"#len", v.Len}} {
+				k := p.Idx + part[0]
+				if _, ok := g.heapSort[k]; !ok {
+					g.heapSort[k] = "(Array Int Int)"
+				}
+				st.heap[k] = g.def("H", "(Array Int Int)", fmt.Sprintf("(store %s %s %s)", g.heapGet(st, k), p.T, part[1]))
+			}
 		case p.Kind == "heapfield":
 			if v.Kind != "int" && v.Kind != "bool" && v.Kind != "err" && v.Kind != "opaque" && v.Kind != "map" {
 				panic(oos("store of " + v.Kind + " value into heap field " + p.Idx))
@@ -427,7 +439,11 @@ func (g *Gen) load(st *State, x *ssa.UnOp, a Val) Val {
 		e := fmt.Sprintf("(select %s %s)", g.arr(st, *a.Elem), a.Idx)
 		return g.elemVal(st, e, x.Type())
 	case a.Kind == "globptr":
-		return g.globalVal(st, a.T, x.Type())
+		v := g.globalVal(st, a.T, x.Type())
+		if gl, ok := x.X.(*ssa.Global); ok {
+			g.constGlobalFacts(st, gl, v)
+		}
+		return v
 	case a.Kind == "unmodelledptr":
 		return g.symFor(x.Type(), "unmodelled", st)
 	case a.Kind == "opaque" && a.T != "" && isScalarCell(x.Type()):
@@ -478,11 +494,15 @@ func (g *Gen) heapRead(st *State, key, obj string, t types.Type) Val {
 		g.assume(st, fmt.Sprintf("(and (<= %s %s) (<= %s %s))", lo, e, e, hi))
 		return Val{T: e, Kind: "int"}
 	}
+	isStr := false
 	switch u := t.Underlying().(type) {
 	case *types.Basic:
 		if u.Info()&types.IsString != 0 && g.opaqueStr {
 			return Val{T: e, Kind: "int"}
 		}
+		isStr = u.Info()&types.IsString != 0 // a string field is held like a byte slice (reference, offset, length)
+	}
+	switch u := t.Underlying().(type) {
 	case *types.Pointer:
 		g.assume(st, fmt.Sprintf("(>= %s 0)", e))
 		return Val{T: e, Kind: "opaque", Ty: t}
@@ -492,7 +512,10 @@ func (g *Gen) heapRead(st *State, key, obj string, t types.Type) Val {
 		return g.mapFromRef(st, e, u, t)
 	case *types.Signature:
 		return Val{T: e, Kind: "opaque", Ty: t}
-	case *types.Slice:
+	case *types.Slice, *types.Basic:
+		if _, isBasic := u.(*types.Basic); isBasic && !isStr {
+			break
+		}
 		for _, sfx := range []string{"#off", "#len"} {
 			if _, ok := g.heapSort[key+sfx]; !ok {
 				g.heapSort[key+sfx] = "(Array Int Int)"
@@ -512,6 +535,12 @@ func (g *Gen) heapRead(st *State, key, obj string, t types.Type) Val {
 		}
 		if !known {
 			st.refs = append(st.refs, e)
+		}
+		if isStr {
+			// strings are value-form byte arrays (Kind "str"): the bytes of the backing object, which nothing
+			// can write (strings are immutable), read at this point
+			g.noteElemRange(st, e, types.Typ[types.Byte])
+			return Val{T: fmt.Sprintf("(select %s %s)", g.hsGet(st), e), Off: off, Len: ln, Kind: "str", Ty: t}
 		}
 		return Val{Ref: e, Off: off, Len: ln, Kind: "slice", Ty: t}
 	}
@@ -1066,6 +1095,10 @@ func (g *Gen) bitop(st *State, x *ssa.BinOp, a, b Val) Val {
 	// unmodelled bit operation: result unconstrained within its type (sound over-approximation)
 	g.unmodelled["bitop "+x.Op.String()+" (result only bounded, not computed)"] = true
 	r := g.symFor(x.Type(), "bitop", st)
+	if x.Op == token.XOR {
+		// a ^ b is at least a function of its operands: the uninterpreted bxor(a, b) (spec builtin xor)
+		g.assume(st, fmt.Sprintf("(= %s (%s %s %s))", r.T, g.uf("bxor", 2, "Int"), a.T, b.T))
+	}
 	nonneg := fmt.Sprintf("(and (>= %s 0) (>= %s 0))", a.T, b.T)
 	switch x.Op {
 	case token.AND:
